@@ -179,11 +179,21 @@ pub fn run_race(ctx: &mut Ctx, bytes: &[u8], force_shifting: bool) -> Result<boo
     let mut text = version_text(0, n_fill, false);
     let path = wd.write("src/d.gleam", &text);
     let uri = uri_of(&path);
-    let sched = std::env::var("VERIF_C16_SCHED").ok();
+    // Half of the races run against the server built with the `verif` feature, whose yield points
+    // (document store updated, before/after the database is changed, start of a snapshot task,
+    // diagnostics computed) sleep 0..=max ms as a function of a seed: the windows in which an edit
+    // can overtake a request or a diagnostics task get wider than the machine's timing makes them.
+    // Seed and scale are a function of the stream's hash (no extra choices: old streams keep their meaning).
+    let hsched = crate::engine::choices::hash_str(&hex(bytes));
+    let hooked = Lsp::hooked_bin().filter(|_| hsched % 2 == 0);
+    let sched = std::env::var("VERIF_C16_SCHED").ok().or_else(|| hooked.as_ref().map(|_| format!("{}:{}", (hsched >> 8) % 100_000, [1u64, 3, 10, 30][((hsched >> 4) % 4) as usize])));
     let env: Vec<(&str, String)> = match &sched {
         Some(s) => vec![("GLAS_VERIF_SCHED", s.clone())],
         None => vec![],
     };
+    if hooked.is_some() {
+        ctx.class("race against the hooked server (seeded yield points)");
+    }
     // Known finding C16-F1: edits that move the queried positions (lines inserted above them) let a
     // racing request be answered with its position converted against the NEW text and the analysis
     // of the OLD one.  Such edits are generated only when probing (VERIF_C16_PROBE=shift).
@@ -191,7 +201,8 @@ pub fn run_race(ctx: &mut Ctx, bytes: &[u8], force_shifting: bool) -> Result<boo
     if !shifting {
         ctx.excluded("line-shifting edits above the queried positions (known finding C16-F1)");
     }
-    let mut lsp = Lsp::spawn(&wd.path, &env).map_err(|e| Failure::new(format!("cannot start glas: {e}"), case.clone()).sig("kind", "harness"))?;
+    let bin = hooked.clone().unwrap_or_else(crate::engine::lsp::glas_bin);
+    let mut lsp = Lsp::spawn_bin(&bin, &wd.path, &env).map_err(|e| Failure::new(format!("cannot start glas: {e}"), case.clone()).sig("kind", "harness"))?;
     if !lsp.initialize(&wd.path) {
         lsp.kill();
         return Err(Failure::new("no answer to initialize", case).sig("kind", "harness"));
